@@ -18,7 +18,6 @@ import (
 	"path/filepath"
 	"runtime/debug"
 	"strings"
-	"syscall"
 	"time"
 
 	"github.com/awslabs/ar-go-tools/analysis"
@@ -45,8 +44,8 @@ func workerMain(args []string) {
 	// a worker must never outlive its driver, run for ever, or take the machine's memory:
 	//  - exit when the parent goes away (the check script kills the driver on its own timeout)
 	//  - hard lifetime limit
-	//  - address-space limit (a diverging traversal allocates without bound): the Go runtime then dies with
-	//    "fatal error: ... out of memory", which the parent treats like an exceeded budget
+	//  - memory: the driver kills a worker whose resident set exceeds 6 GiB (a diverging traversal allocates
+	//    without bound) and treats it like an exceeded budget
 	ppid := os.Getppid()
 	go func() {
 		for {
@@ -57,9 +56,7 @@ func workerMain(args []string) {
 		}
 	}()
 	time.AfterFunc(40*time.Minute, func() { os.Exit(5) })
-	memLimit := uint64(4) << 30
-	syscall.Setrlimit(syscall.RLIMIT_AS, &syscall.Rlimit{Cur: memLimit, Max: memLimit})
-	debug.SetMemoryLimit(3 << 30)
+	debug.SetMemoryLimit(5 << 30) // soft; the hard limit is enforced by the driver, which watches the resident set
 	res, err := os.OpenFile(resFile, os.O_APPEND|os.O_CREATE|os.O_WRONLY, 0o644)
 	if err != nil {
 		fmt.Fprintln(os.Stderr, err)
